@@ -643,6 +643,8 @@ func (v *fnVC) trCall(x *CallE, env *Env) (T, types.Type) {
 			return app("slen", a), types.Typ[types.Int]
 		case *types.Array:
 			return intLit(u.Len()), types.Typ[types.Int]
+		case *types.Map:
+			return v.mapLen(a, u, v.snapshot(env)), types.Typ[types.Int]
 		}
 		panic("len of " + ty.String())
 	case "cap":
@@ -753,8 +755,33 @@ func (v *fnVC) trCall(x *CallE, env *Env) (T, types.Type) {
 	case "inTree":
 		a, _ := v.tr(x.Args[0], env)
 		b, _ := v.tr(x.Args[1], env)
-		v.P.add("inTree", "(declare-fun inTree (Int Int) Bool)")
+		v.P.add("inTree", inTreeDecl)
 		return app("inTree", a, app("root", b)), types.Typ[types.Bool]
+	case "nilv": // nilv(): the nil value (interface)
+		return "(mkI 0 0)", v.e.typesPkg(modPrefix).Scope().Lookup("value").Type()
+	case "subval": // subval(c): the value (boxed cfgSub) wrapping config c
+		a, _ := v.tr(x.Args[0], env)
+		pkg := v.e.typesPkg(modPrefix)
+		subT := pkg.Scope().Lookup("cfgSub").Type()
+		subN, subSt, _ := v.isModStruct(subT)
+		v.P.structSort(subN, subSt)
+		bf := v.boxFn(subT)
+		st := app("mk_"+structName(subN), a)
+		bx := app(bf, st)
+		if !strings.Contains(bx, "q_") {
+			if gk := fmt.Sprint(v.blk.Index, bx); !v.grounded[gk] {
+				v.grounded[gk] = true
+				v.assume(eq(app("un"+bf, bx), st))
+			}
+		} else {
+			v.P.add("unboxax:"+bf, fmt.Sprintf("(assert (forall ((x %s)) (! (= (un%s (%s x)) x) :pattern ((%s x)))))", structName(subN), bf, bf, bf))
+		}
+		return app("mkI", intLit(int64(v.P.tag(subT))), bx), pkg.Scope().Lookup("value").Type()
+	case "subtree": // subtree(a, b): every object of config a's tree belongs to config b's tree (ownership, assumed)
+		a, _ := v.tr(x.Args[0], env)
+		b, _ := v.tr(x.Args[1], env)
+		v.P.add("subtree", "(declare-fun subtree (Int Int) Bool)")
+		return app("subtree", a, b), types.Typ[types.Bool]
 	case "has": // has(m, k): k is a key of map m
 		m, mty := v.tr(x.Args[0], env)
 		mt := mty.Underlying().(*types.Map)
